@@ -118,17 +118,76 @@ func goBin() string {
 	return "go1.26.8"
 }
 
+// instrumentedPackages are the coreutils package directories whose mutexes
+// the lock-yield flavour replaces.
+var instrumentedPackages = []string{".", "chain", "wallet", "syncer", "threadgroup", "rhp/v4", "testutil"}
+
+// prepareInstrumented copies /repo's working tree to a scratch directory
+// outside /repo, /verif and /tmp, rewrites its mutexes (tools/instrument) and
+// returns the scratch directory plus a modfile that points the worker build at
+// it. The caller removes the directory once the worker is built.
+func prepareInstrumented() (scratch, modfile string, err error) {
+	run := func(name string, args ...string) error {
+		cmd := exec.Command(name, args...)
+		cmd.Dir = root
+		cmd.Env = goEnv()
+		out, err := cmd.CombinedOutput()
+		if err != nil {
+			return fmt.Errorf("%s %v: %v\n%s", name, args, err, out)
+		}
+		return nil
+	}
+	if err = run(goBin(), "build", "-o", filepath.Join(root, "bin", "instrument"), "./tools/instrument"); err != nil {
+		return
+	}
+	os.MkdirAll("/var/tmp", 0o755)
+	if scratch, err = os.MkdirTemp("/var/tmp", "verif-instrumented-"); err != nil {
+		return
+	}
+	if err = run("rsync", "-a", "--exclude", ".git", "/repo/", scratch+"/"); err != nil {
+		return
+	}
+	args := append([]string{scratch, filepath.Join(root, "vsyncsrc", "vsync.go.txt")}, instrumentedPackages...)
+	if err = run(filepath.Join(root, "bin", "instrument"), args...); err != nil {
+		return
+	}
+	mod, rerr := os.ReadFile(filepath.Join(root, "go.mod"))
+	if rerr != nil {
+		return scratch, "", rerr
+	}
+	mod = bytes.Replace(mod, []byte("replace go.sia.tech/coreutils => /repo"), []byte("replace go.sia.tech/coreutils => "+scratch), 1)
+	mod = bytes.Replace(mod, []byte("=> ./third_party/frand"), []byte("=> "+filepath.Join(root, "third_party", "frand")), 1)
+	modfile = filepath.Join(root, "bin", "instrumented.mod")
+	if err = os.WriteFile(modfile, mod, 0o644); err != nil {
+		return
+	}
+	sum, _ := os.ReadFile(filepath.Join(root, "go.sum"))
+	err = os.WriteFile(filepath.Join(root, "bin", "instrumented.sum"), sum, 0o644)
+	return
+}
+
 func buildWorker(flavour string) (string, error) {
 	if *fWorker != "" {
 		return *fWorker, nil
 	}
 	out := filepath.Join(root, "bin", "worker-"+flavour+".test")
 	args := []string{"test", "-c", "-o", out}
-	if mf := os.Getenv("VERIF_MODFILE"); mf != "" {
-		args = append(args, "-modfile="+mf)
-	}
-	if tags := os.Getenv("VERIF_TAGS"); tags != "" {
-		args = append(args, "-tags="+tags)
+	if flavour == "instrumented" {
+		scratch, modfile, err := prepareInstrumented()
+		if scratch != "" {
+			defer os.RemoveAll(scratch)
+		}
+		if err != nil {
+			return "", fmt.Errorf("preparing the instrumented copy failed: %v", err)
+		}
+		args = append(args, "-modfile="+modfile, "-tags=instrumented")
+	} else {
+		if mf := os.Getenv("VERIF_MODFILE"); mf != "" {
+			args = append(args, "-modfile="+mf)
+		}
+		if tags := os.Getenv("VERIF_TAGS"); tags != "" {
+			args = append(args, "-tags="+tags)
+		}
 	}
 	args = append(args, "./worker")
 	cmd := exec.Command(goBin(), args...)
@@ -313,6 +372,13 @@ func main() {
 	}
 	start := time.Now()
 	bin, err := buildWorker(flavour)
+	if err != nil && flavour == "instrumented" {
+		// the instrumented copy is an extra, not a precondition: a tree it
+		// cannot rewrite or build is still checked, at call granularity
+		fmt.Fprintf(os.Stderr, "simcheck: %v\nsimcheck: falling back to the plain flavour (no lock-level scheduling points)\n", err)
+		flavour = "plain"
+		bin, err = buildWorker(flavour)
+	}
 	if err != nil {
 		fail2("%v", err)
 	}
